@@ -217,6 +217,25 @@ def main(ctx, replay=None):
                     traces[sc].append({"ev": "Reset"})
                 traces[sc] += events
                 trace_meta[sc].append((len(traces[sc]), list(seq), info["projection"]))
+        # (5b) only the strain FRACTIONS matter: the same field with every row multiplied by its own positive factor gives the same tensor
+        if sc_run in ("generic", "uniaxial", "neardeg"):
+            fac = rng.uniform(0.3, 4.0, (ntv, 1))
+            full = [f"{i}{j}" for i, j in ALLKEYS]
+            _e1, _t1, (iso_a, _a1), info_a = run(full)
+            _e2, _t2, (iso_b, _a2), info_b = run(full, strain=strain * fac)
+            ctx.count({"sc": sc_run, "unnormalised_rows": True})
+            if info_a["error"] is None and iso_a is not None:
+                if info_b["error"] is not None or iso_b is None:
+                    ctx.violation(f"[{sc_run}] strain rows multiplied by positive factors: resolve/calculate raised {info_b['error']!r}",
+                                  {"scenario": sc_run, "strain": strain * fac}, {"scenario": sc_run, "clause": "complete_raises"})
+                else:
+                    for k in full:
+                        ck = c_(int(k[0]), int(k[1]))
+                        if relerr(iso_b[ck], iso_a[ck], tensor_scale) > 1e-9:
+                            ctx.violation(f"[{sc_run}] c{k} changes (rel. {relerr(iso_b[ck], iso_a[ck], tensor_scale):.2e}) when every row of the strain field is "
+                                          f"multiplied by its own positive factor (same fractions)", {"scenario": sc_run, "key": k, "strain": strain, "factors": fac},
+                                          {"scenario": sc_run, "clause": "fractions_only"})
+                            break
         # (6) axis relabelling, on the full tensor
         if sc_run in sched.SCENARIOS:
             check_permutations(ctx, rng, sc, insts[sc], case, strain, run)
